@@ -423,6 +423,22 @@ func ruleR15_6(w *World, r *Report) {
 		}
 	}
 	if len(paired) == 0 {
+		// the implied literal and the clause index may be kept as one record in a single per-literal list: then
+		// there is nothing to keep in step
+		k := 0
+		for _, a := range apps {
+			if outer, ok := a.tbl.Type().Underlying().(*types.Slice); ok {
+				if inner, ok := outer.Elem().Underlying().(*types.Slice); ok {
+					if stt, ok := inner.Elem().Underlying().(*types.Struct); ok && stt.NumFields() >= 2 {
+						k++
+						r.OK("R15.6", fmt.Sprintf("(*solver.Problem).DetectAtMostOne parallel append #%d", k), w.InstrPos(a.st), "literal and clause index are one record of a single list")
+					}
+				}
+			}
+		}
+		if k > 0 {
+			return
+		}
 		r.Unk("R15.6", "(*solver.Problem).DetectAtMostOne parallel lists", w.Pos(fn.Pos()), "no pair of per-literal lists extended together")
 		return
 	}
@@ -663,18 +679,154 @@ func ruleR13_7(w *World, r *Report) {
 		return
 	}
 	// the integer reader: a call returning (int, error) inside a loop
-	var rd *ssa.Call
-	for _, ci := range callsIn(fn) {
-		c, ok := ci.(*ssa.Call)
-		if !ok || !inLoop(fn, c.Block()) {
-			continue
+	readerIn := func(f *ssa.Function) *ssa.Call {
+		var rd *ssa.Call
+		for _, ci := range callsIn(f) {
+			c, ok := ci.(*ssa.Call)
+			if !ok || !inLoop(f, c.Block()) {
+				continue
+			}
+			if tup, ok := c.Type().(*types.Tuple); ok && tup.Len() == 2 && typeShort(tup.At(0).Type()) == "int" && isErrorType(tup.At(1).Type()) && len(w.Callees[c]) > 0 {
+				rd = c
+			}
 		}
-		if tup, ok := c.Type().(*types.Tuple); ok && tup.Len() == 2 && typeShort(tup.At(0).Type()) == "int" && isErrorType(tup.At(1).Type()) && len(w.Callees[c]) > 0 {
-			rd = c
-		}
+		return rd
 	}
+	rd := readerIn(fn)
 	key := "solver.ParseCNF terminator closes a clause"
+	isClauseAppend := func(ins ssa.Instruction) bool {
+		st, ok := ins.(*ssa.Store)
+		if !ok || qualField(st.Addr) != "solver.Problem.Clauses" {
+			return false
+		}
+		c, ok := st.Val.(*ssa.Call)
+		if !ok {
+			return false
+		}
+		b, ok := c.Call.Value.(*ssa.Builtin)
+		return ok && b.Name() == "append"
+	}
 	if rd == nil {
+		// the literals of one clause may be read by a helper (`lits, isClause, err := readClause(&b, r, n)`): the helper
+		// must answer `a clause was read` (a boolean result that is true) on every path that met the terminator, and
+		// the parser must append a clause whenever that answer is not known to be false
+		for _, ci := range callsIn(fn) {
+			hc, ok := ci.(*ssa.Call)
+			h := ci.Common().StaticCallee()
+			if !ok || h == nil || w.PkgName(h) != "solver" || h == fn || !inLoop(fn, hc.Block()) {
+				continue
+			}
+			hrd := readerIn(h)
+			if hrd == nil {
+				continue
+			}
+			var hval ssa.Value
+			for _, ref := range *hrd.Referrers() {
+				if ex, ok := ref.(*ssa.Extract); ok && ex.Index == 0 {
+					hval = ex
+				}
+			}
+			if hval == nil {
+				continue
+			}
+			nres := h.Signature.Results().Len()
+			flagOK := make([]bool, nres)
+			for i := 0; i < nres; i++ {
+				flagOK[i] = typeShort(h.Signature.Results().At(i).Type()) == "bool"
+			}
+			tested, swallowed := false, map[string]bool{}
+			exploreEdges(hrd.Block(), &pstate{phi: map[*ssa.Phi]ssa.Value{}, facts: map[string]string{}},
+				func(b *ssa.BasicBlock) bool { return b == hrd.Block() },
+				func(ins ssa.Instruction, st *pstate) {
+					if ins == ssa.Instruction(hrd) {
+						for k := range st.facts {
+							delete(st.facts, k)
+						}
+						return
+					}
+					ret, isRet := ins.(*ssa.Return)
+					if !isRet || st.facts[st.vkey(hval)] != "=0" || len(ret.Results) != nres || !isNilConst(ret.Results[nres-1]) {
+						return
+					}
+					for i := 0; i < nres; i++ {
+						k, isK := st.resolve(ret.Results[i]).(*ssa.Const)
+						if !isK || k.Value == nil || k.Value.String() != "true" {
+							flagOK[i] = false
+						}
+					}
+				},
+				func(from, to *ssa.BasicBlock, st *pstate) {
+					if st.facts[st.vkey(hval)] == "=0" {
+						tested = true
+						if to == hrd.Block() {
+							swallowed[w.InstrPos(from.Instrs[len(from.Instrs)-1])] = true
+						}
+					}
+				})
+			if !tested {
+				r.Bad("R13.7", key, w.InstrPos(hrd), "the integer read is never compared with the terminator 0")
+				return
+			}
+			if len(swallowed) > 0 {
+				r.Bad("R13.7", key, w.InstrPos(hrd), "after a terminator 0 the helper "+w.FuncName(h)+" goes on reading the next integer into the same clause: two clauses are merged")
+				return
+			}
+			bi := -1
+			for i, okF := range flagOK {
+				if okF {
+					bi = i
+				}
+			}
+			if bi < 0 {
+				r.Bad("R13.7", key, w.InstrPos(hrd), "the helper "+w.FuncName(h)+" does not answer `a clause was read` (a boolean result that is true) on every path that met the terminator 0: an empty clause `0` is silently dropped and an unsatisfiable text is read as satisfiable")
+				return
+			}
+			var flag ssa.Value
+			for _, ref := range *hc.Referrers() {
+				if ex, ok := ref.(*ssa.Extract); ok && ex.Index == bi {
+					flag = ex
+				}
+			}
+			missing := map[string]bool{}
+			mayBeClause := func(st *pstate) bool {
+				return flag == nil || st.facts["cond:"+st.vkey(flag)] != "=false"
+			}
+			exploreEdges(hc.Block(), &pstate{phi: map[*ssa.Phi]ssa.Value{}, facts: map[string]string{}},
+				func(b *ssa.BasicBlock) bool { return b == hc.Block() },
+				func(ins ssa.Instruction, st *pstate) {
+					if ins == ssa.Instruction(hc) {
+						for k := range st.facts {
+							delete(st.facts, k)
+						}
+						st.facts["after"] = "yes"
+						return
+					}
+					if st.facts["after"] != "yes" {
+						return
+					}
+					if isClauseAppend(ins) {
+						st.facts["appended"] = "yes"
+					}
+					if ret, ok := ins.(*ssa.Return); ok && st.facts["appended"] != "yes" && mayBeClause(st) && len(ret.Results) == 2 && isNilConst(ret.Results[1]) {
+						missing[w.InstrPos(ret)] = true
+					}
+				},
+				func(from, to *ssa.BasicBlock, st *pstate) {
+					if st.facts["after"] == "yes" && to == hc.Block() && st.facts["appended"] != "yes" && mayBeClause(st) {
+						missing[w.InstrPos(from.Instrs[len(from.Instrs)-1])] = true
+					}
+				})
+			if len(missing) > 0 {
+				var ps []string
+				for p := range missing {
+					ps = append(ps, p)
+				}
+				r.Bad("R13.7", key, w.InstrPos(hc), "after the helper "+w.FuncName(h)+" answered that a clause was read the parser can go on (reached "+strings.Join(sortedStrings(ps), ", ")+") without having appended a clause: an empty clause `0` is silently dropped and an unsatisfiable text is read as satisfiable")
+			} else {
+				r.OK("R13.7", key, w.InstrPos(hc), "the helper "+w.FuncName(h)+" answers true on every terminator and the parser appends a clause unless the answer is false")
+			}
+			return
+		}
 		r.Unk("R13.7", key, w.Pos(fn.Pos()), "no call reading an integer (int, error) inside a loop")
 		return
 	}
@@ -687,18 +839,6 @@ func ruleR13_7(w *World, r *Report) {
 	if val == nil {
 		r.Unk("R13.7", key, w.InstrPos(rd), "the integer read is not used")
 		return
-	}
-	isClauseAppend := func(ins ssa.Instruction) bool {
-		st, ok := ins.(*ssa.Store)
-		if !ok || qualField(st.Addr) != "solver.Problem.Clauses" {
-			return false
-		}
-		c, ok := st.Val.(*ssa.Call)
-		if !ok {
-			return false
-		}
-		b, ok := c.Call.Value.(*ssa.Builtin)
-		return ok && b.Name() == "append"
 	}
 	missing := map[string]bool{}
 	tested := false
